@@ -1,5 +1,6 @@
 """C14 — integer range strings expand to the denoted set and compress back canonically."""
 import itertools
+import re
 import json
 import os
 import subprocess
@@ -210,6 +211,8 @@ def gen(rng, tier, escalate):
         pos = rng.randint(0, len(text))
         ins = rng.choice([",", "-", ",,", "x", " ", "-1", ",-"])
         text = text[:pos] + ins + text[pos:] if rng.random() < 0.7 else text[:pos] + text[pos + 1:]
+        if any(int(d) > 200000 for d in re.findall(r"\d+", text)):
+            continue            # a deletion merged two numbers: the range would have millions of members (memory, not logic)
         cases.append({"kind": "mutated", "text": text, "ops": [["list"], ["str"], ["len"]]})
     cases.append({"kind": "empty", "text": "", "ops": [["len"], ["list"], ["set"], ["str"], ["iter"], ["contains", 1], ["remove", 1],
                                                        ["append", 5], ["append", 5], ["append", 3], ["list"], ["str"], ["remove", 5], ["iter"]]})
